@@ -742,7 +742,9 @@ namespace fixedmath
     //else check lo for underflow and shift left with d
     else if( ulo < (1<<16) )
       {
-      int lshbits{ std::max(cxx20::countl_zero( uhi ) - 30,0) >> 1 };
+      //uhi shifted left has to stay below 2^31 to keep uhi*uhi+ulo*ulo within 64 bits
+      int const uhi_clz{ cxx20::countl_zero( uhi ) };
+      int lshbits{ std::min( std::max(uhi_clz - 30,0) >> 1, uhi_clz - 33 ) };
       uhi <<= lshbits;
       ulo <<= lshbits;
       return as_fixed( sqrt( as_fixed( (uhi*uhi+ulo*ulo)>>prec_) ).v  >> lshbits);
